@@ -128,3 +128,40 @@ contract("C13.added_entry_drops_finished_attribute_lists", file="hed/schema/hed_
                                         " and self.all_entries[len(self.all_entries) - 1] is new_entry",
              "C13.add.entry_is_returned": "result is new_entry",
          })
+
+# C13 "two schemas under one prefix ... is refused": a schema group is refused whenever two POSITIONS of the list carry the same prefix -
+# also when both positions hold the very same schema object (load_schema_version hands out cached objects) - and is built otherwise
+class_model("HedSchemaMember", {"_namespace": "Str", "source_format": "Str"})
+class_model("HedSchemaGroupInit", {"_schemas": "Map[Str,HedSchemaMember]", "source_format": "Opt[Str]", "_name": "Str", "name": "Opaque"})
+contract("C13.group_refuses_a_prefix_used_twice", file="hed/schema/hed_schema_group.py", func="HedSchemaGroup.__init__",
+         params={"self": "HedSchemaGroupInit", "schema_list": "List[HedSchemaMember]", "name": "Str"}, returns=None, enc="native",
+         self_class="HedSchemaGroupInit", modifies=["self._schemas", "self.source_format", "self._name"],
+         raises={"HedFileError": "len(schema_list) == 0 or any(schema_list[i]._namespace == schema_list[j]._namespace"
+                                 " for j in range(len(schema_list)) for i in range(j))"},
+         ensures={
+             "C13.group.every_member_reachable_by_its_prefix":
+                 "all(schema_list[k]._namespace in self._schemas and self._schemas[schema_list[k]._namespace] is schema_list[k]"
+                 " for k in range(len(schema_list)))",
+             "C13.group.no_other_prefix_is_served":
+                 "forall_str(lambda p: implies(p in self._schemas, any(schema_list[k]._namespace == p for k in range(len(schema_list)))))",
+         },
+         assume=["HedSchemaBase.__init__ (super().__init__()) sets no attribute the clauses read"])
+
+# C13 "an annotation whose tags all carry prefix p is judged ... against p's schema": whatever FORMAT a schema is read from (XML, MediaWiki,
+# TSV file or directory, URL), the object load_schema hands back carries the prefix asked for - every branch reaches set_schema_prefix
+LOADED = ["a loader hands back a new schema object without prefix (HedSchema.__init__ sets _namespace = '')"]
+for _cid, _file, _fn in (("file", "hed/schema/schema_io/base2schema.py", "SchemaLoader.load"),
+                         ("tsv", "hed/schema/schema_io/df2schema.py", "SchemaLoaderDF.load_spreadsheet")):
+    contract("C13.loader_" + _cid, file=_file, func=_fn, params={}, returns="HedSchemaNS", enc="native", trusted=True,
+             ensures={"new_unprefixed": "fresh(result) and len(result._namespace) == 0"}, assume=LOADED)
+contract("C13.loader_string", file="hed/schema/hed_schema_io.py", func="from_string", params={}, returns="HedSchemaNS", enc="native",
+         trusted=True, ensures={"new_unprefixed": "fresh(result) and len(result._namespace) == 0"}, assume=LOADED)
+contract("C13.loaded_schema_carries_the_prefix_asked_for", file="hed/schema/hed_schema_io.py", func="load_schema",
+         params={"hed_path": "Str", "schema_namespace": "Opt[Str]", "schema": "Opaque", "name": "Opaque"}, returns="HedSchemaNS",
+         enc="native", raises={"HedFileError": True},
+         ensures={
+             "C13.load.prefix_asked_for_is_set_in_every_format":
+                 "implies(schema_namespace is not None and len(schema_namespace) > 0,"
+                 " len(result._namespace) > 0 and result._namespace[len(result._namespace) - 1] == ':')",
+             "C13.load.no_prefix_asked_none_set": "implies(schema_namespace is None or len(schema_namespace) == 0, len(result._namespace) == 0)",
+         })
